@@ -136,6 +136,16 @@ CLAIMED = {
             "strict order, unique 4-letter prefixes, SHA-256 equal to the published english.txt digest).",
             "SHA-256 is an oracle table; hex with blanks may be refused or honoured for the blank-stripped bytes.",
             "DESIGN.md section 5 C04"),
+    "C12": ("TLA+ Bip85 spec: TLC exhaustive over the parameter space at real scale (domains, hardened levels, path "
+            "injectivity, slice widths, Base64) + TLC trace validation of all five applications with oracle tables",
+            "MC_Bip85 enumerates every word count 0..30, byte count 0..80, password length 0..100 and index classes around 0 "
+            "and 2^31: accepted iff in domain, all path levels hardened, widths, and (as a TLC-evaluated assumption) "
+            "injectivity of the path on all 369 legal (app, parameter, index) triples. Trace_Keys recomputes each recorded "
+            "application result - hardened derivation by Bip32.tla, HMAC keyed 'bip-entropy-from-k', truncation/split, "
+            "Bip39 sentence, WIF/xprv Base58Check, hex, Base64 - exhaustively over the allowed parameters, with out-of-range "
+            "parameters and indexes (negative, >= 2^31) required to raise, and with substituted entropy for the key-validity branch.",
+            "Primitive values are oracle tables; masters are sampled (reference-vector-like and random).",
+            "DESIGN.md section 5 C12"),
 }
 
 ALL = ["C%02d" % i for i in range(1, 21)]
